@@ -51,7 +51,7 @@ def ph_run(p, script, wrap=None):
                 det.update(step[1])
                 ev.append(ph_project(det, "bad-accepted"))
             except Exception as ex:  # noqa
-                ev.append(ph_project(det, "update", None, type(ex).__name__))
+                ev.append(ph_project(det, "bad", None, type(ex).__name__))
     return {"cfg": ph_cfg(p), "ev": ev, "kind": "PageHinkley", "params": p,
             "script": [list(s) if s[0] != "bad" else ["bad", repr(s[1])] for s in script]}
 
@@ -99,7 +99,7 @@ def cu_run(p, script, wrap=None):
                 det.update(step[1])
                 ev.append(cu_project(det, "bad-accepted"))
             except Exception as ex:  # noqa
-                ev.append(cu_project(det, "update", None, type(ex).__name__, det.total_samples != before))
+                ev.append(cu_project(det, "bad", None, type(ex).__name__, det.total_samples != before))
     return {"cfg": cu_cfg(p), "ev": ev, "kind": "CUSUM", "params": p,
             "script": [list(s) if s[0] != "bad" else ["bad", repr(s[1])] for s in script]}
 
